@@ -86,3 +86,261 @@ proof fn lemma_vsum_is_brange(vc: VcAbs, ev: Seq<(u64, u64)>, s: Seq<u64>, cur: 
         assert(s.last() == s[s.len() - 1]);
     }
 }
+
+// ---- arithmetic of bucket numbers ----
+proof fn lemma_bucket_arith(t: int, i: int, c: int)
+    requires i > 0, t >= 0, c >= 0, c * i <= t,
+    ensures
+        (t - c * i) / i == t / i - c,
+        t - t % i == (t / i) * i,
+        ((t / i) * i) / i == t / i,
+        ((t / i) * i) % i == 0,
+        t / i >= c,
+{
+    let q = t / i;
+    let r = t % i;
+    vstd::arithmetic::div_mod::lemma_fundamental_div_mod(t, i);
+    assert(t == i * q + r);
+    assert(0 <= r < i) by { vstd::arithmetic::div_mod::lemma_mod_bound(t, i); }
+    assert(i * q == q * i) by(nonlinear_arith);
+    assert((q - c) * i == q * i - c * i) by(nonlinear_arith);
+    assert(q >= c) by(nonlinear_arith) requires c * i <= t, t == q * i + r, 0 <= r < i, i > 0;
+    vstd::arithmetic::div_mod::lemma_fundamental_div_mod_converse(t - c * i, i, q - c, r);
+    vstd::arithmetic::div_mod::lemma_fundamental_div_mod_converse(q * i, i, q, 0);
+}
+
+// ---- the history invariant: bucket j holds exactly what was approved in bucket number cur - j ----
+pub open spec fn hist_inv(vc0: VcAbs, ev: Seq<(u64, u64)>) -> bool {
+    let s = run(vc0, ev);
+    let i = vc0.bucket_interval;
+    let cur = s.start_sec as int / i as int;
+    &&& s.bucket_interval == i && s.limit == vc0.limit && s.buckets.len() == vc0.buckets.len()
+    &&& s.start_sec as int == cur * i
+    &&& forall|k: int| 0 <= k < ev.len() ==> bq(#[trigger] ev[k].0, i) <= cur
+    &&& (ev.len() > 0 ==> s.start_sec <= ev.last().0)
+    &&& forall|j: int| 0 <= j < s.buckets.len() ==> #[trigger] s.buckets[j] as nat == brange(vc0, ev, cur - j, cur - j)
+    &&& vsum(s.buckets) <= vc0.limit
+}
+
+// shape of one step (arithmetic only, no history)
+proof fn lemma_step_shape(s0: VcAbs, t: u64, amt: u64, cur0: int)
+    requires abs_wf(s0), s0.start_sec as int == cur0 * s0.bucket_interval, s0.start_sec <= t, cur0 >= 0,
+    ensures ({
+        let i = s0.bucket_interval as int;
+        let n = s0.buckets.len() as int;
+        let cur = t as int / i;
+        let d = cur - cur0;
+        let s = vc_step(s0, t, amt);
+        let sh = vc_shifted(s0, t);
+        &&& d >= 0
+        &&& s.start_sec as int == cur * i && s.start_sec as int / i == cur && s.start_sec <= t
+        &&& s.bucket_interval == s0.bucket_interval && s.limit == s0.limit && s.buckets.len() == n && sh.len() == n
+        &&& forall|j: int| 0 <= j < n && j < d ==> #[trigger] sh[j] == 0
+        &&& forall|j: int| 0 <= j < n && j >= d ==> #[trigger] sh[j] == s0.buckets[j - d]
+        &&& s.buckets == (if vc_accepts(s0, t, amt) { sh.update(0, sat(sh[0] as nat + amt as nat)) } else { sh })
+    }),
+{
+    let i = s0.bucket_interval as int;
+    let n = s0.buckets.len() as int;
+    lemma_bucket_arith(t as int, i, cur0);
+    let cur = t as int / i;
+    let d = cur - cur0;
+    assert(((t - s0.start_sec) / s0.bucket_interval as int) == d);
+    let ns = vc_nshift(s0, t);
+    assert(ns == (if d < n { d as nat } else { n as nat }));
+    let sh = vc_shifted(s0, t);
+    assert(sh == zeros(ns) + s0.buckets.take(n - ns));
+    assert(sh.len() == n);
+    assert forall|j: int| 0 <= j < n && j < d implies #[trigger] sh[j] == 0 by { }
+    assert forall|j: int| 0 <= j < n && j >= d implies #[trigger] sh[j] == s0.buckets[j - d] by {
+        assert(ns == d);
+        assert(sh[j] == s0.buckets.take(n - ns)[j - ns]);
+    }
+    assert((t - (t % s0.bucket_interval as u64)) as int == cur * i) by {
+        assert(t as int % i == (t % s0.bucket_interval as u64) as int);
+    }
+}
+
+proof fn lemma_hist_base(vc0: VcAbs)
+    requires fresh(vc0),
+    ensures hist_inv(vc0, Seq::<(u64, u64)>::empty()),
+{
+    let ev = Seq::<(u64, u64)>::empty();
+    let i = vc0.bucket_interval as int;
+    lemma_vsum_zeros(vc0.buckets.len());
+    assert(run(vc0, ev) == vc0);
+    assert(0int / i == 0) by { vstd::arithmetic::div_mod::lemma_fundamental_div_mod_converse(0, i, 0, 0); }
+    assert forall|j: int| 0 <= j < vc0.buckets.len() implies #[trigger] vc0.buckets[j] as nat == brange(vc0, ev, 0 - j, 0 - j) by { }
+}
+
+// the per-bucket part of the step: every bucket of the new state holds what the extended history approved in it
+proof fn lemma_hist_step_buckets(vc0: VcAbs, ev: Seq<(u64, u64)>, cur0: int)
+    requires
+        ev.len() > 0, fresh(vc0),
+        ({
+            let p = ev.drop_last();
+            let s0 = run(vc0, p);
+            &&& abs_wf(s0) && s0.bucket_interval == vc0.bucket_interval && s0.limit == vc0.limit && s0.buckets.len() == vc0.buckets.len()
+            &&& s0.start_sec as int == cur0 * vc0.bucket_interval && cur0 >= 0 && s0.start_sec <= ev.last().0
+            &&& forall|k: int| 0 <= k < p.len() ==> bq(#[trigger] p[k].0, vc0.bucket_interval) <= cur0
+            &&& forall|j: int| 0 <= j < s0.buckets.len() ==> #[trigger] s0.buckets[j] as nat == brange(vc0, p, cur0 - j, cur0 - j)
+            &&& vsum(s0.buckets) <= vc0.limit
+        }),
+    ensures ({
+        let s = run(vc0, ev);
+        let cur = ev.last().0 as int / vc0.bucket_interval as int;
+        &&& forall|j: int| 0 <= j < s.buckets.len() ==> #[trigger] s.buckets[j] as nat == brange(vc0, ev, cur - j, cur - j)
+        &&& vsum(s.buckets) <= vc0.limit
+    }),
+{
+    let i = vc0.bucket_interval;
+    let n = vc0.buckets.len() as int;
+    let p = ev.drop_last();
+    let t = ev.last().0;
+    let amt = ev.last().1;
+    let s0 = run(vc0, p);
+    lemma_step_shape(s0, t, amt, cur0);
+    let cur = t as int / i as int;
+    let d = cur - cur0;
+    let s = run(vc0, ev);
+    assert(s == vc_step(s0, t, amt));
+    let sh = vc_shifted(s0, t);
+    assert forall|j: int| 0 <= j < n implies #[trigger] sh[j] as nat == brange(vc0, p, cur - j, cur - j) by {
+        if j < d {
+            lemma_brange_above(vc0, p, cur - j, cur - j, cur0);
+        } else {
+            assert(sh[j] == s0.buckets[j - d]);
+            assert(cur0 - (j - d) == cur - j);
+        }
+    }
+    lemma_vsum_is_brange(vc0, p, sh, cur);
+    lemma_vsum_is_brange(vc0, p, s0.buckets, cur0);
+    lemma_shift_sum_le(vc0, p, cur0, cur, n);
+    assert(vsum(sh) <= vsum(s0.buckets));
+    let acc = vc_accepts(s0, t, amt);
+    assert(acc == acc_last(vc0, ev));
+    if acc {
+        assert(vsum(sh) + amt <= vc0.limit);
+        lemma_vsum_ge_first(sh);
+        lemma_vsum_update(sh, 0, sat(sh[0] as nat + amt as nat));
+        assert(s.buckets == sh.update(0, (sh[0] + amt) as u64));
+    } else {
+        assert(s.buckets == sh);
+    }
+    assert forall|j: int| 0 <= j < n implies #[trigger] s.buckets[j] as nat == brange(vc0, ev, cur - j, cur - j) by {
+        assert(sh[j] as nat == brange(vc0, p, cur - j, cur - j));
+        assert(bq(t, i) == cur);
+    }
+}
+
+proof fn lemma_hist_inv(vc0: VcAbs, ev: Seq<(u64, u64)>)
+    requires fresh(vc0), sorted_ev(ev),
+    ensures hist_inv(vc0, ev),
+    decreases ev.len(),
+{
+    if ev.len() == 0 {
+        lemma_hist_base(vc0);
+        assert(ev == Seq::<(u64, u64)>::empty());
+    } else {
+        let i = vc0.bucket_interval;
+        let p = ev.drop_last();
+        let t = ev.last().0;
+        let amt = ev.last().1;
+        assert forall|a: int, b: int| 0 <= a <= b < p.len() implies p[a].0 <= p[b].0 by { assert(p[a] == ev[a] && p[b] == ev[b]); }
+        lemma_hist_inv(vc0, p);
+        let s0 = run(vc0, p);
+        let cur0 = s0.start_sec as int / i as int;
+        assert(s0.start_sec <= t) by {
+            if p.len() > 0 { assert(p.last() == ev[ev.len() - 2]); assert(ev[ev.len() - 2].0 <= ev[ev.len() - 1].0); }
+        }
+        assert(cur0 >= 0);
+        lemma_step_shape(s0, t, amt, cur0);
+        lemma_hist_step_buckets(vc0, ev, cur0);
+        let cur = t as int / i as int;
+        assert forall|k: int| 0 <= k < ev.len() implies bq(#[trigger] ev[k].0, i) <= cur by {
+            if k < p.len() { assert(p[k] == ev[k]); }
+        }
+    }
+}
+// what is counted in [cur - n + 1, cur] is at most what was counted in [cur0 - n + 1, cur0] when nothing lies above cur0
+proof fn lemma_shift_sum_le(vc: VcAbs, ev: Seq<(u64, u64)>, cur0: int, cur: int, n: int)
+    requires cur0 <= cur, forall|k: int| 0 <= k < ev.len() ==> bq(#[trigger] ev[k].0, vc.bucket_interval) <= cur0,
+    ensures brange(vc, ev, cur - n + 1, cur) <= brange(vc, ev, cur0 - n + 1, cur0),
+    decreases ev.len(),
+{
+    if ev.len() > 0 {
+        assert forall|k: int| 0 <= k < ev.drop_last().len() implies bq(#[trigger] ev.drop_last()[k].0, vc.bucket_interval) <= cur0 by {
+            assert(ev.drop_last()[k] == ev[k]);
+        }
+        lemma_shift_sum_le(vc, ev.drop_last(), cur0, cur, n);
+        assert(bq(ev[ev.len() - 1].0, vc.bucket_interval) <= cur0);
+    }
+}
+proof fn lemma_vsum_ge_first(s: Seq<u64>)
+    requires s.len() > 0,
+    ensures s[0] as nat <= vsum(s),
+    decreases s.len(),
+{
+    if s.len() > 1 { lemma_vsum_ge_first(s.drop_last()); assert(s.drop_last()[0] == s[0]); }
+}
+
+// approved amounts with time >= a are among those with bucket number >= bucket(a)
+proof fn lemma_wsum_le_brange(vc: VcAbs, ev: Seq<(u64, u64)>, a: u64, top: int)
+    requires vc.bucket_interval > 0, forall|k: int| 0 <= k < ev.len() ==> bq(#[trigger] ev[k].0, vc.bucket_interval) <= top,
+    ensures wsum(vc, ev, a) <= brange(vc, ev, bq(a, vc.bucket_interval), top),
+    decreases ev.len(),
+{
+    if ev.len() > 0 {
+        assert forall|k: int| 0 <= k < ev.drop_last().len() implies bq(#[trigger] ev.drop_last()[k].0, vc.bucket_interval) <= top by {
+            assert(ev.drop_last()[k] == ev[k]);
+        }
+        lemma_wsum_le_brange(vc, ev.drop_last(), a, top);
+        assert(bq(ev[ev.len() - 1].0, vc.bucket_interval) <= top);
+        if ev.last().0 >= a {
+            vstd::arithmetic::div_mod::lemma_div_is_ordered(a as int, ev.last().0 as int, vc.bucket_interval as int);
+        }
+    }
+}
+
+// C12, history form.  After any history of requests (non-decreasing times) on a control that started empty, the amounts
+// approved since time `a` stay within the limit whenever the window [a, now] is no longer than the tracked interval
+// (number of buckets x bucket length) minus one bucket.  `now` is the time of the latest request; every prefix of a
+// history is a history, so this covers every window ending at any request.
+pub proof fn c12_window_bound(vc0: VcAbs, ev: Seq<(u64, u64)>, a: u64)
+    requires
+        fresh(vc0), sorted_ev(ev), ev.len() > 0, a <= ev.last().0,
+        ev.last().0 - a <= (vc0.buckets.len() - 1) * vc0.bucket_interval,
+    ensures
+        wsum(vc0, ev, a) <= vc0.limit,                                                              //[C12.lemma.window-bound]
+{
+    let i = vc0.bucket_interval as int;
+    let n = vc0.buckets.len() as int;
+    let t = ev.last().0 as int;
+    lemma_hist_inv(vc0, ev);
+    let s = run(vc0, ev);
+    let cur = s.start_sec as int / i;
+    assert(bq(ev[ev.len() - 1].0, vc0.bucket_interval) <= cur);
+    // bucket(a) >= bucket(now) - (n - 1)
+    let qa = a as int / i;
+    let qt = t / i;
+    assert(qa >= qt - (n - 1)) by {
+        vstd::arithmetic::div_mod::lemma_fundamental_div_mod(a as int, i);
+        vstd::arithmetic::div_mod::lemma_fundamental_div_mod(t, i);
+        vstd::arithmetic::div_mod::lemma_mod_bound(a as int, i);
+        vstd::arithmetic::div_mod::lemma_mod_bound(t, i);
+        let ra = a as int % i;
+        let rt = t % i;
+        assert(i * qt + rt - (i * qa + ra) <= (n - 1) * i);
+        assert(i * (qt - qa - (n - 1)) <= ra - rt) by(nonlinear_arith)
+            requires i * qt + rt - (i * qa + ra) <= (n - 1) * i;
+        assert(qt - qa - (n - 1) <= 0) by(nonlinear_arith)
+            requires i * (qt - qa - (n - 1)) <= ra - rt, 0 <= ra < i, 0 <= rt < i, i > 0;
+    }
+    assert(qt <= cur);
+    assert(cur >= 0 && cur * i <= t);
+    lemma_bucket_arith(t, i, cur);
+    assert(cur <= qt);
+    lemma_wsum_le_brange(vc0, ev, a, cur);
+    lemma_brange_mono(vc0, ev, cur - n + 1, qa, cur);
+    lemma_vsum_is_brange(vc0, ev, s.buckets, cur);
+}
